@@ -55,4 +55,8 @@ TEXT = {
    text="Theorems on the line-loop model: a failure is sticky (exit status non-zero whatever follows); a read error gives non-zero status; a failing statement changes neither output nor prelude; an accepted query appends exactly its SQL and a blank line; an accepted let extends the prelude and prints nothing; output is append-only. "
         "Equality with the one-shot specification for every line layout is decided by correspondence with the built binary and by a one-shot oracle using the library's own Compile; not yet carried by a theorem.",
    note="Partial proof; OS I/O, signals, terminal detection outside the model."),
+ "C04": dict(
+   text="Theorems for every byte string s: quoteIdentifier(s) and quoteSQLString(s) are read back by the target dialect's lexer (ClickHouse rules: doubled quotes and backslash escapes) as exactly one token whose decoded content is s; under standard rules (no backslash escapes) they are still exactly one token (content with doubled backslashes). So no content can close a quote, open a comment or start a clause inside a quoted name or string. "
+        "That every name/literal position of every program goes through these two functions (render included), number normalisation preserves the value, and the token structure of whole outputs is payload-independent are decided by byte-exact correspondence on programs whose literal and name contents come from a hostile pool, and by the C09 value oracle; not yet carried by a theorem.",
+   note="Partial proof. The dialect's lexical rules are a written specification (coq/Spec/SqlLex.v). Parameter snippets are copied verbatim and are outside the claim."),
 }
